@@ -63,6 +63,11 @@ FIRST = {
     "S07c-submission-resolution-walks-past-join": ("missed (generator and oracle gap: two conditional regions in sequence were rare, and the judge trusted the instantiation-time probabilities)", "two-region graphs are forced in 1/4 of the heavy cases; new clause: a completed conditional whose described children have a chance must not be instantiated with every child at probability 0"),
     "S10c-clockwork-admission-boundary-le": ("missed by C10 (caught by C12 and C15)", "C10 gained clockwork_history: C15's multi-invocation histories judged for one-decision-per-request, side effects and exceptions"),
     "S13b-edf-sorts-by-raw-deadline-number": ("missed", "C13 now writes some deadlines in milliseconds (class mixed_time_units): priorities are instants, not numerals"),
+    "S03j-min-remaining-raw-ticks": ("missed (millisecond runtimes were only drawn in the greedy worlds, where every placement is followed by a zero-length step that normalises the units)",
+                                     "C03 gained scripted_ms_sim: plan-ahead placements of strategies with runtimes written in milliseconds next to running microsecond tasks"),
+    "S13j-lsf-virtual-placement-drops-strategy": ("missed (every pool had one worker, as the property's observation point prescribes)",
+                                                  "C13 gained greedy_multiworker: pools of 1-3 workers; a greedy Placement names the pool only, so the oracle quantifies over every way of putting the higher-or-equal "
+                                                  "priority placements on the pool's workers (exhaustive assignment search) and reports an inversion only if the unplaced task fits in all of them"),
 }
 NOTES = {
     "S01b-reload-profile-skips-booking": "NOT CAUGHT, by decision: the change only manifests when a profile that is already resident on a worker is loaded again with a larger "
